@@ -231,6 +231,9 @@ struct Case {
     edits: Vec<Edit>,
     popt: Popt,
     damage: bool,
+    /// instead of a data pack, every pack holding tree blobs is lost (the parent cannot be loaded)
+    #[serde(default)]
+    tree_damage: bool,
 }
 
 fn expected_counts(parent: &Entry, cur: &Entry, ignore_ctime: bool) -> (u64, u64, u64) {
@@ -290,7 +293,18 @@ fn run_case(raw: &RawKey, c: &Case, rep: &mut Report) -> Result<(), (String, Str
         pre &= apply(&mut tree, &c.edits[i], i as i64, ignore_ctime);
     }
     // with two parents only the edits after the older of the two matter; conservatively all
-    if c.damage {
+    if c.damage && c.tree_damage {
+        let mut st = env.store();
+        for (pid, _) in st.list(FileType::Pack) {
+            if pack_header(raw, st.get(FileType::Pack, &pid).unwrap()).is_ok_and(|h| h.iter().any(|b| b.tpe == 1)) {
+                _ = st.del(FileType::Pack, &pid);
+            }
+        }
+        env.set_store(st);
+        env.open().map_err(|e| es("open", e))?.repair_index(&RepairIndexOptions::default(), false).map_err(|e| es("repair-index", e))?;
+        rep.inc("damaged_parent_cases");
+        rep.inc("parent_trees_lost_cases");
+    } else if c.damage {
         // lose the data pack holding the first chunk of an unchanged file, then repair the index
         let mut st = env.store();
         let victim_chunk = match tree.get("d/x").or_else(|| tree.get("c")).map(|e| &e.ent) {
@@ -421,7 +435,7 @@ pub fn run(args: &Args, rep: &mut Report) {
         return;
     }
     let quick = args.quick();
-    rep.set_meta("bounds", json!(format!("3 base sources x edit scripts of length 1{} over 14 edits x 7 parent option sets x parent damage {{none, one data pack lost + repair-index}}", if quick { " and 2 (second edit from a 6-edit subset)" } else { " and 2" })));
+    rep.set_meta("bounds", json!(format!("3 base sources x edit scripts of length 1{} over 14 edits x 7 parent option sets x parent damage {{none, one data pack lost + repair-index, all tree packs lost + repair-index}}", if quick { " and 2 (second edit from a 6-edit subset)" } else { " and 2" })));
     let mut idx = 0usize;
     let mut seen: BTreeSet<String> = BTreeSet::new();
     let second: Vec<Edit> = if quick {
@@ -445,11 +459,15 @@ pub fn run(args: &Args, rep: &mut Report) {
                 return;
             }
             for p in &POPTS {
-                for damage in [false, true] {
+                for (damage, tree_damage) in [(false, false), (true, false), (true, true)] {
                     if damage && edits.len() > 1 && quick {
                         continue;
                     }
-                    let c = Case { base: b, edits: edits.clone(), popt: p.clone(), damage };
+                    // the parent's trees are lost only in single-edit scripts
+                    if tree_damage && edits.len() > 1 {
+                        continue;
+                    }
+                    let c = Case { base: b, edits: edits.clone(), popt: p.clone(), damage, tree_damage };
                     rep.inc("executions");
                     if rep.samples.len() < 3 && edits.len() == 2 && damage == false {
                         rep.sample(serde_json::to_value(&c).unwrap());
